@@ -1,7 +1,7 @@
 /- Hand-written executable model (tie B): Gen — bookkeeping of the field generators
    (RandMeth / IncomprRandMeth / Fourier in field/generator.py) and of SRF.__call__ (field/srf.py):
    private model copy, seed, mode number, which settings the amplitude / wave-vector arrays were
-   derived under, position in the RNG stream (number of nugget-noise variates drawn since the stream was
+   derived under, position in the RNG stream (number of nugget-noise draws since the stream was
    last restarted), the position set stored by `Field.set_pos`.  Values are abstract identifiers.
    Core Lean only. -/
 import GSV.Proto
@@ -38,7 +38,8 @@ structure State where
   modeNo : Nat
   derived : Derived
   epoch : Nat          -- number of reseeds so far
-  draws : Nat          -- normal variates drawn for nugget noise since the last reseed
+  draws : Nat          -- nugget-noise draws since the last reseed: every noise-drawing call takes ONE sub-stream
+                       -- (`RNG.random` = `RandomState(master.randint())`), whatever the number of points
   pos : Option Nat := none   -- identifier of the position set (incl. mesh type) stored on the field object
 deriving DecidableEq, Repr, Inhabited
 
@@ -52,12 +53,13 @@ inductive Op where
 deriving DecidableEq, Repr, Inhabited
 
 /-- output of a generating call: the token of the summed modes, if noise was drawn the
-    (seed, epoch-if-random, first draw index, count) of the nugget noise, and the position set the
+    (seed, epoch-if-random, index of the sub-stream, number of variates) of the nugget noise, and the position set the
     values belong to (`none` for a direct generator call, whose positions are an explicit argument) -/
 structure Out where
   field : Derived
   noise : Option (Option Nat × Nat × Nat × Nat)
   pos : Option Nat := none
+  nug : Nat := 0       -- level of the nugget whose noise was added (0: no noise)
 deriving DecidableEq, Repr, Inhabited
 
 def derive (m : MVal) (seed : Option Nat) (modeNo epoch : Nat) : Derived :=
@@ -85,8 +87,9 @@ def setPos (s : State) (p : Nat) : State := { s with pos := some p }
 
 def genCall (s : State) (npts : Nat) (addNugget : Bool) (pos : Option Nat := none) : State × Out :=
   if addNugget ∧ s.genModel.nug ≠ 0 then
-    ({ s with draws := s.draws + npts },
-     { field := s.derived, noise := some (s.seed, (match s.seed with | some _ => 0 | none => s.epoch), s.draws, npts), pos })
+    ({ s with draws := s.draws + 1 },
+     { field := s.derived, noise := some (s.seed, (match s.seed with | some _ => 0 | none => s.epoch), s.draws, npts), pos,
+       nug := s.genModel.nug })
   else (s, { field := s.derived, noise := none, pos })
 
 /-- `SRF.__call__` up to the point where the generator runs: `generator.update(model, seed)`, then `pre_pos` -/
@@ -108,7 +111,7 @@ def preGen (s : State) : Op → State
   | _ => s
 
 /-- what is needed to reproduce an output from a freshly constructed object: its model, seed and mode
-    number, and how many noise variates have been consumed since the stream was (re)started -/
+    number, and how many noise draws (calls that drew noise) happened since the stream was (re)started -/
 structure Recipe where
   model : MVal
   seed : Option Nat
@@ -122,9 +125,13 @@ def recipe (s : State) : Recipe := { model := s.genModel, seed := s.seed, modeNo
 def init (m : MVal) (seed : Option Nat) (modeNo : Nat) : State :=
   { srfModel := m, genModel := m, seed, modeNo, derived := derive m seed modeNo 1, epoch := 1, draws := 0 }
 
-/-- a freshly constructed object on which `burn` noise variates have been drawn (one direct call with
-    `burn` points) -/
-def replayState (r : Recipe) : State := (genCall (init r.model r.seed r.modeNo) r.burn true none).1
+/-- `k` direct generator calls with nugget (one point each) -/
+def burnN : Nat → State → State
+  | 0, s => s
+  | k + 1, s => burnN k (genCall s 1 true none).1
+
+/-- a freshly constructed object on which `burn` noise-drawing calls have been made -/
+def replayState (r : Recipe) : State := burnN r.burn (init r.model r.seed r.modeNo)
 
 def run (s : State) : List Op → State × List (Option Out)
   | [] => (s, [])
@@ -144,7 +151,7 @@ def randmethField (var : α) (cov : Nat → Nat → α) (z1 z2 : Nat → α) (po
 
 /-- `Fourier.reset_seed`: `spectrum_factor_j = sqrt(S(|k_j|) · Π Δk)` -/
 def spectrumFactor (S : Nat → α) (dk : Nat → α) (dim : Nat) (j : Nat) : α :=
-  sqrt (S j * forRange 1 dim (dk 0) fun d acc => acc * dk d)
+  sqrt ((if S j < ((0:Nat):α) then ((0:Nat):α) else S j) * forRange 1 dim (dk 0) fun d acc => acc * dk d)
 
 /-- `Fourier.__call__` without nugget -/
 def fourierField (sf : Nat → α) (modes : Nat → Nat → α) (z1 z2 : Nat → α) (pos : Nat → Nat → α) (dim N X i : Nat) : α :=
@@ -204,7 +211,7 @@ def outJson (o : Out) : Json :=
     ("noise", match o.noise with
       | none => Json.null
       | some (s, e, a, n) => Json.arr #[optJ s, natJ e, natJ a, natJ n]),
-    ("pos", optJ o.pos)]
+    ("pos", optJ o.pos), ("nug", natJ o.nug)]
 
 def recipeJson (r : Recipe) : Json :=
   Json.mkObj [("model", natJ r.model.id), ("nug", natJ r.model.nug), ("seed", optJ r.seed), ("mode_no", natJ r.modeNo), ("burn", natJ r.burn)]
